@@ -72,6 +72,15 @@ theorem imports_cover_body (bodyReq modelOpsets : List (String × Nat)) (p : Str
     ∃ v', getV (funcImports bodyReq modelOpsets) (norm p.1) = some v' ∧ p.2 ≤ v' :=
   fold_ge _ [] p (List.mem_append_left _ hp)
 
+/-- **Imports cover the body, nested bodies included.** For a function body with control flow: the
+    requirement of *every node at any nesting depth* (inside If/Loop/Scan branches of the body, inside
+    branches of branches, …) is met by the function's opset imports, which are computed from the body
+    build's requirement collection (`reqG`: node loop, then what the builds of the branches collected). -/
+theorem imports_cover_nested_body (body : RGraph) (modelOpsets : List (String × Nat)) (p : String × Nat)
+    (hp : p ∈ allReqG body) :
+    ∃ v', getV (funcImports (reqG body) modelOpsets) (norm p.1) = some v' ∧ p.2 ≤ v' :=
+  imports_cover_body (reqG body) modelOpsets p ((reqG_mem p body).mpr hp)
+
 /-- …they are never below the model's own imports (one opset per domain across model and functions)… -/
 theorem imports_cover_model (bodyReq modelOpsets : List (String × Nat)) (p : String × Nat)
     (hp : p ∈ modelOpsets) :
@@ -154,6 +163,9 @@ example : toModel (.mk [.ctrl [.mk [.call ("dom", "f") 1 (.mk [.op, .call ("dom"
 example : toModel (.mk [.call ("dom", "f") 1 (.mk [.op]), .ctrl [.mk [.call ("dom", "f") 7 (.mk [.op, .op])]]])
     = none := by decide
 example : getV (funcImports [("", 19), ("ai.onnx", 17)] [("", 18), ("dom", 0)]) "" = some 19 := by decide
+-- a domain required only inside a branch of a branch is imported
+example : getV (funcImports (reqG (.mk [.mk [("", 16)] [.mk [.mk [("", 16)] [.mk [.mk [("ai.onnx.ml", 1)] []]]]]]))
+    [("", 17)]) "ai.onnx.ml" = some 1 := by decide
 open FuncSem in
 example : evalO (fun l xs => l + xs.sum) 0 [(5, ⟨[.op 1 [0, 0]], [1, 0]⟩)] 1 [.call 5 [0], .call 5 [1]] [10]
     = some [10, 21, 10, 43, 21] := by simp [evalO, Func.lookup]
